@@ -43,7 +43,7 @@ def prebuild(ctx):
 
 
 HARNESSES = [
-    dict(name="parsers", src=["c04.c"], variant="asan", prebuild=prebuild, deadline={"quick": 240, "thorough": 1500}),
+    dict(name="parsers", src=["c04.c"], variant="asan", prebuild=prebuild, deadline={"quick": 900, "thorough": 5400}),
 ]
 ASSUMPTIONS = [
     "bounds: string lengths and template edit depths as listed in the rule; inputs longer than these are not enumerated "
